@@ -210,7 +210,7 @@ def _translate_envs(old, new, envs, combo):
     return out
 
 
-def check_evaluators(model, counters):
+def check_evaluators(model, counters, _nested=False):
     import numpy as np
     import pandas as pd
 
@@ -292,6 +292,19 @@ def check_evaluators(model, counters):
                 cmp(f"evaluate_epsilon_gradient d/d{n}", g.iloc[:, j].values, fd, 1e-5)
         except Exception as e:
             fails.append(f"evaluate_epsilon_gradient: raises {type(e).__name__}: {str(e)[:100]} on a model without ODE system")
+    # the same evaluations on the same model carrying *different* stored initial individual estimates: explicitly passed etas
+    # must still be the evaluation point
+    if not fails and not _nested:
+        try:
+            from vlib import mgraph
+
+            other = mgraph.individual_estimates_table(model, offset=0.07)
+            m_ie = pm.update_initial_individual_estimates(model, other)
+        except Exception:
+            m_ie = None
+        if m_ie is not None:
+            sub_fails = check_evaluators(m_ie, counters, _nested=True)
+            fails += ["with stored initial individual estimates: " + f for f in sub_fails]
     return fails[:4]
 
 
